@@ -5,8 +5,10 @@ import bftcommon
 def run(ctx):
     q = ctx.quick
     # 1. design level: exhaustive exploration of BFT.tla (4 validators, 1 Byzantine, E = 3)
-    ctx.tlc_must_hold("bft", "MCBFT", cfg="MCBFT_quick.cfg" if q else "MCBFT_thorough.cfg",
-                      timeout=900 if q else 7200, heap="8g", label="exhaustive design model")
+    ctx.tlc_must_hold("bft", "MCBFT", cfg="MCBFT_quick.cfg", timeout=1800, heap="8g", label="exhaustive design model (3 blocks, 1 Byzantine, 1 restart)")
+    if not q:
+        ctx.tlc_must_hold("bft", "MCBFT", cfg="MCBFT_thorough.cfg", timeout=7200, heap="12g", workers=16,
+                          label="exhaustive design model (4 blocks, 2 Byzantine)")
     # liveness clause: synchronous all-honest operation justifies every > 2/3 epoch, commits once a justified epoch
     # exists, and finality follows (exhaustive over all proposer orders)
     ctx.tlc_must_hold("bft", "MCBFT", cfg="MCBFT_sync.cfg" if q else "MCBFT_sync_thorough.cfg", timeout=900 if q else 3000,
